@@ -70,7 +70,7 @@ func widen(b []byte, off, w int) ([]byte, bool) {
 
 func TestDecodeTotalBounded(t *testing.T) {
 	const check = "serix_decode_total_bounded"
-	stats.Rule(check, "inputs for a generated type shape: structure-aware mutations of a valid reference encoding (hostile length/count/optional markers incl. 2^24..2^30, bool 2..255, type codes, truncations, swapped/duplicated/dropped elements, time stamps > MaxInt64, garbage, havoc, random tails), the valid encoding itself, and raw random bytes; each input is decoded with validation off and on. Oracle: no panic; 0 <= n <= len(input) and n == 0 on error... (only n <= len is claimed); bytes allocated during the call <= 1 MiB + 2 KiB * len(input); for inputs with a planted over-long length field L (> remaining input) the same input with 16*L allocates within 8 KiB of it. Distinct by (shape, input); non-trivial = rejected after at least one structural field was read correctly (mutation not at offset 0) or accepted although mutated")
+	stats.Rule(check, "inputs for a generated type shape: structure-aware mutations of a valid reference encoding (hostile length/count/optional markers incl. 2^24..2^30, bool 2..255, type codes, truncations, swapped/duplicated/dropped elements, time stamps > MaxInt64, garbage, havoc, random tails), the valid encoding itself, and raw random bytes; each input is decoded with validation off and on. Oracle: no panic; 0 <= n <= len(input) and n == 0 on error... (only n <= len is claimed); bytes allocated during the call <= 1 MiB + 2 KiB * len(input); for inputs with a planted over-long length field L (> remaining input) the same input with 16*L allocates at most 8 KiB more. Distinct by (shape, input); non-trivial = rejected after at least one structural field was read correctly (mutation not at offset 0) or accepted although mutated")
 	rapid.Check(t, func(rt *rapid.T) {
 		c := serixgen.NewCase(rt, cfg())
 		v, _ := serixgen.GenValue(rt, c.Root, serixgen.ValidMode, cfg())
@@ -93,7 +93,6 @@ func TestDecodeTotalBounded(t *testing.T) {
 		nt := false
 		for _, validate := range []bool{false, true} {
 			ex := map[string]any{"input": hex.EncodeToString(input), "mutation": mut.Label, "validate": validate}
-			fmt.Printf("") // keep fmt
 			var out serixgen.Outcome
 			alloc := measure(func() { out = c.Decode(input, validate) })
 			if out.Panic != nil {
@@ -120,17 +119,17 @@ func TestDecodeTotalBounded(t *testing.T) {
 			if mut.HostileOff >= 0 {
 				if wide, ok := widen(input, mut.HostileOff, mut.HostileW); ok {
 					var out2 serixgen.Outcome
+					// the first decode of a shape fills the struct-field cache: re-measure the L input warm, then 16L
+					alloc = measure(func() { _ = c.Decode(input, validate) })
 					alloc2 := measure(func() { out2 = c.Decode(wide, validate) })
 					labels = append(labels, "metamorphic_pair")
 					if out2.Panic != nil {
 						ex["input"] = hex.EncodeToString(wide)
 						violation(rt, check, c, ex, "Decode panicked: %v", out2.Panic)
 					}
-					diff := int64(alloc2) - int64(alloc)
-					if diff < 0 {
-						diff = -diff
-					}
-					if diff > allocIndependenceSlack {
+					// one-directional: a larger over-long length may lead to an earlier rejection (less work), never to
+					// more allocation, because the work a correct decoder does is bounded by the bytes it can consume
+					if int64(alloc2)-int64(alloc) > allocIndependenceSlack {
 						ex["input_16x"] = hex.EncodeToString(wide)
 						ex["allocated"] = []uint64{alloc, alloc2}
 						violation(rt, check, c, ex, "allocation depends on an over-long length field: %d bytes for L, %d bytes for 16L", alloc, alloc2)
